@@ -12,6 +12,7 @@ from dalimc.spec.responses import RESPONSES
 from . import _cmdspace as S
 
 ID = "C03"
+OPTIMISED_STRIDE = {"quick": 12, "thorough": 12}      # every k-th shard once more in an interpreter started with -O
 LEVEL = "exploration"
 ENGINE = "E1"
 TECHNIQUE = "exhaustive enumeration of table rows x legal arguments: library constructor vs independent table-driven encoder, and reference frame -> library decoder"
